@@ -1015,7 +1015,7 @@ var _ = fmt.Sprint
 // so that loops and branches only affect the fields that are actually assigned.
 
 func (ex *Exec) isSR(o *types.Var) bool {
-	if o == nil || ex.boxed[o] {
+	if o == nil || ex.boxed[o] || ex.noSR[o] {
 		return false
 	}
 	if o.Pkg() != nil && o.Parent() == o.Pkg().Scope() {
